@@ -1419,6 +1419,13 @@ M('C07', 'from_Bflat decides on canonicalisation from the input shapes (round-5 
   "        if res.L > 1 and max(res.chi) > 1:", "        if res.L > 1 and max(B.shape[2] for B in Bflat[:-1]) > 1:",
   'FORM-canonicalize-all-bonds')
 
+M('C09', '_term_to_ops_list asks the unshifted site for the JW decision (round-5 seed a)', 'tenpy/networks/mps.py',
+  "            if autoJW and self.sites[self._to_valid_site_index(i + i_offset)].op_needs_JW(op):", "            if autoJW and self.sites[i % self.L].op_needs_JW(op):",
+  'SITE-index-offset')
+M('C10', 'MPOGraph.add_string_left_to_right: wrap test against the unreduced start (round-5 seed b)', 'tenpy/networks/mpo.py',
+  "            if (k - i) % self.L == 0:", "            if k % self.L == i:",
+  'INDEX-mod-compare')
+
 # ---------------------------------------------------------------- C16 / C19
 M('C16', 'GMRES restart: relative residual norm used for normalisation (round-3 seed b)', KRY,
   """        self.total_error.append([npc.norm(self.rs[-1]) / self.b_norm])
